@@ -357,9 +357,11 @@ where
 
     let w = world.clone();
     let result = std::panic::catch_unwind(std::panic::AssertUnwindSafe(move || {
+        // tokio's own coin flips (branch order of `select!` without `biased`) come from the run's salt
         let rt = tokio::runtime::Builder::new_current_thread()
             .enable_time()
             .start_paused(true)
+            .rng_seed(tokio::runtime::RngSeed::from_bytes(&salt.to_le_bytes()))
             .build()
             .expect("runtime");
         let out = rt.block_on(async move {
